@@ -210,7 +210,11 @@ pub fn run_line(c: &Case) -> Obs {
         // lazy = eager on every line the writer produced from a record with the header's number of
         // samples (the eager reader reads exactly the header's sample columns, the lazy one all)
         let ns_hdr: usize = c.args[3].parse().unwrap();
-        if let (Some(ec), Some(lc), true) = (&ec, &lc, orig.samples.len() == ns_hdr) {
+        // (records of the edge classes hold values outside the property's quantifier -- e.g. an empty
+        // String under an array key, which the two readers show differently -- so only the valid
+        // records and the former-defect class of samples without FORMAT keys are held to it)
+        let keyless = orig.keys.is_empty() && !orig.samples.is_empty() && orig.samples.iter().all(|r| r.is_empty());
+        if let (Some(ec), Some(lc), true) = (&ec, &lc, orig.samples.len() == ns_hdr && (valid || keyless)) {
             if let Some(f) = first_diff(ec, lc) {
                 let tag = if orig.keys.is_empty() && !orig.samples.is_empty() {
                     "lazy-samples-dropped-format-missing".to_string()
